@@ -186,7 +186,7 @@ package graphql
 //@   loop 1 decreases len(unit.sources) - rangeindex
 
 //@ func executeNonBatchWorkUnit
-//@   requires unit != nil && unit.selection != nil && unit.field != nil
+//@   requires unit != nil && unit.selection != nil && unit.field != nil && dest != nil
 //@   keeps WorkUnit
 //@   call SafeExecuteResolver assert arg2 == src && arg1 == unit.field && arg3 == unit.selection.Args && arg4 == unit.selection.SelectionSet
 //@   call outputNode.Fail assert arg0 == dest
@@ -238,7 +238,7 @@ package graphql
 // tables: the fragment table built by Parse and slices of parsed directives never hold nil.
 //@ nonnil ast.Field.Name, ast.FragmentSpread.Name, ast.Directive.Name, ast.Argument.Name, ast.Argument.Value, ast.Named.Name, ast.Variable.Name, ast.VariableDefinition.Variable, ast.VariableDefinition.Type, ast.ObjectField.Name, ast.ObjectField.Value, ast.FragmentDefinition.Name, ast.FragmentDefinition.TypeCondition, ast.FragmentDefinition.SelectionSet, ast.OperationDefinition.SelectionSet, ast.NonNull.Type, ast.List.Type
 //@ nonnil elem *ast.Field, elem *ast.FragmentSpread, elem *ast.InlineFragment, elem *ast.Directive, elem *ast.Argument, elem *ast.VariableDefinition, elem *ast.ObjectField, elem *ast.OperationDefinition, elem *ast.FragmentDefinition, elem *ast.Variable, elem *ast.IntValue, elem *ast.FloatValue, elem *ast.StringValue, elem *ast.BooleanValue, elem *ast.EnumValue, elem *ast.ListValue, elem *ast.ObjectValue, elem *ast.Named, elem *ast.List, elem *ast.NonNull
-//@ nonnil elem *graphql.Fragment, elem *graphql.Directive, elem *graphql.Object
+//@ nonnil elem *graphql.Fragment, elem *graphql.Directive, elem *graphql.Object, elem *graphql.outputNode
 //@ trusted func parser.Parse
 //@   ensures err == nil ==> result != nil
 
@@ -353,3 +353,50 @@ package graphql
 //@   loop 3 invariant forall t string :: (visited[t] ==> nobj[t] == 1) && (!visited[t] ==> nobj[t] == 0)
 //@   loop 3 invariant forall t string :: len(sourcesByType[t]) == len(destinationsByType[t]) && ((t in sourcesByType) ==> (t in typ.Types))
 //@   ensures err == nil ==> forall t string :: (t in sourcesByType) ==> nobj[t] == 1
+
+// ---- C16: a failing field records its own error under its own path, first error wins.
+//@ func outputNode.Fail
+//@   requires o != nil
+//@   assume o.errRecorder != nil && (err is *pathError ==> err.(*pathError) != nil)     // every outputNode is built by new(TopLevel)OutputNode; errors are never typed-nil path errors
+//@   keeps outputNode
+//@   ghost p []string
+//@   ghost nested error
+//@   call outputNode.getPath assert arg0 == o
+//@   call outputNode.getPath ghost p = ret0
+//@   call nestPathErrorMulti assert arg0 == p && arg1 == err
+//@   call nestPathErrorMulti ghost nested = ret0
+//@   call errorRecorder.record assert arg0 == o.errRecorder && arg1 == nested
+
+//@ func errorRecorder.record$1
+//@   requires deref(e) != nil
+//@   assigns errorRecorder
+//@   ensures deref(e).err == deref(err)
+//@ func errorRecorder.record
+//@   requires e != nil
+//@   call Once.Do assert err != nil
+
+// The per-recomputation closure of a subscription: an error on the initial run is reported exactly once with the
+// sanitised text and the subscription is closed; a failing re-computation writes nothing and asks for a retry; a
+// successful run writes at most one update and the first run always writes one.
+//@ func conn.handleSubscribe$1
+//@   assume reactive.RetrySentinelError != nil && context.Canceled != nil && reactive.RetrySentinelError != context.Canceled    // package-level sentinels (readonly declarations below)
+//@   keeps cell(bool), cell(interface{}), cell(string), ComputationInput   // `initial`, `previous`, `id` are written only by this closure (or never); middlewares do not rewrite the input they are given
+//@   call conn.writeOrClose assert arg1.ID == id                         // C02: updates of different subscriptions never mix
+//@   call Diff assert arg0 == previous                                   // C02: the delta is computed against the value sent last
+//@   ensures result1 != nil ==> deref(previous) == old(deref(previous))         // C02: a failed run does not advance what the client is assumed to hold
+//@   ghost nwrites int
+//@   ghost nclose int
+//@   entry ghost nwrites = 0
+//@   entry ghost nclose = 0
+//@   call conn.writeOrClose ghost nwrites = nwrites + 1
+//@   call conn.closeSubscription ghost nclose = nclose + 1
+//@   ghost cause error
+//@   call ErrorCause ghost cause = ret0
+//@   ensures result1 != nil && result1 != reactive.RetrySentinelError ==> nclose == 1
+//@   ensures result1 != nil && result1 != reactive.RetrySentinelError && cause != context.Canceled ==> nwrites == 1
+//@   ensures result1 == reactive.RetrySentinelError && nclose == 0 ==> nwrites == 0
+//@   ensures result1 == nil ==> nclose == 0 && nwrites <= 1 && deref(initial) == false
+//@   ensures result1 == nil && old(deref(initial)) ==> nwrites == 1
+//@   ensures nwrites <= 1
+
+//@ readonly reactive.RetrySentinelError, context.Canceled
